@@ -3,8 +3,25 @@ from translators import tr_c10
 
 PID = "C10"
 CLAIM = True
-MANIFEST_TEXT = "Lean 4 theorems (all widths n>=1, all well-formed digit lists) that the digit-loop model of bigunsignedint computes arithmetic modulo 2^(16n); the model's masks/width formula are regenerated from bigunsignedint.hh each run, and the model is run against the real class on >=20k boundary-biased cases per run with a GMP oracle deciding the property itself."
-MANIFEST_NOTE = "Trusted: Lean kernel (+propext/Classical.choice/Quot.sound), tr_c10.py, the hand-written model's fidelity (checked by differential execution only), GMP, g++/ASan/UBSan. todouble's final IEEE step and O(quotient) division with large quotients are outside the run."
+MANIFEST_TEXT = ("43 Lean 4 theorems (lean/DuneVerif/Props/C10.lean), for every digit count n (unbounded) and all well-formed "
+                 "operands, about the digit-loop model of bigunsignedint that the driver runs against the real class: "
+                 "add/incr/sub/mul are exact modulo W=2^(16n) (carry, borrow, double-width temporary and truncation included), "
+                 "div/mod by a non-zero divisor return the exact quotient/remainder with the subtraction loop leaving through "
+                 "its exit test (fuel-independence), a zero divisor gives MathError in both; and/or/xor equal Nat.land/lor/xor "
+                 "of the values, ~a = W-1-a, a<<s = a*2^s mod W for s<w, a>>s = a/2^s; the six comparisons decide the order of "
+                 "the values; construction from uintmax_t is x mod W for every n, the signed constructor rejects negatives; "
+                 "touint is val mod 2^32 for every n>=1 (also one digit); todouble's exact result m*2^e has m<2^53, is <= val and "
+                 "has relative error < 2^-32 for every magnitude; parsing the printed hex gives val back; max = W-1; val is "
+                 "injective on n-digit lists, hence equal values hash equally. The proofs use the masks/width formula "
+                 "regenerated from bigunsignedint.hh on every run (bitmask=2^bits-1, overflowmask odd, compbitmask keeps the upper digit, "
+                 "hexdigits*4=bits, 53/bits digits kept) as obligations, and the model is run against the real class on >=20k "
+                 "boundary-biased cases per run with a GMP oracle deciding the property itself on the real code.")
+MANIFEST_NOTE = ("Trusted: Lean kernel (+propext/Classical.choice/Quot.sound), tr_c10.py, the hand-written model's fidelity "
+                 "(lean/DuneVerif/Model/C10.lean mirrors each operator loop; checked by differential execution only), GMP, "
+                 "g++/ASan/UBSan. todouble is proved for the exact number mantissa*2^exponent the loop computes (mantissa<2^53 is a "
+                 "theorem, so the double operations are exact below 2^1024); the double arithmetic itself, the hash function's "
+                 "value, and O(quotient) division with quotients >400 are covered by the run only or not at all. A behavioural "
+                 "change of todouble that keeps the 2^-32 bound is reported as no-failing-input-found (model is an exact copy).")
 TECHNIQUE = 'Lean 4 proof over digit-list model + translator for constants + differential correspondence with GMP oracle'
 TRANSLATORS = [tr_c10.translate]
 HARNESS = dict(
@@ -19,7 +36,7 @@ RULE = ("cases: random operator x width k in {8,16,24,32,48,64,100,128,256} x op
 ASSUMPTIONS = [
     "the Lean model lean/DuneVerif/Model/C10.lean is hand-written; its fidelity to bigunsignedint.hh rests on this differential run",
     "constants (bits, masks, digit-count formula) are regenerated from the source by tools/translators/tr_c10.py",
-    "todouble: the final IEEE operations are exact for the modelled values (integers < 2^48 times a power of two)",
+    "todouble: IEEE double operations are exact on the modelled values (theorem todouble_mantissa_exact: mantissa < 2^53; ldexp exact below 2^1024)",
     "division/remainder are exercised with quotients <= 400 only (the real algorithm is O(quotient))",
 ]
 TRUSTED = ["g++/libstdc++, ASan/UBSan, GMP as oracle", "translator tr_c10.py", "harness/cxx_c10.cc + Driver/C10.lean parsing/printing"]
@@ -29,7 +46,7 @@ def batches(tier, seed):
     n = 20000 if tier == "quick" else 1500000
     parts = 4 if tier == "quick" else 16
     return [dict(args=["--seed", str(seed * 1000 + i), "--cases", str(n // parts), "--tier", tier], tag="g%d" % i,
-                 timeout=(300 if tier == "quick" else 3000)) for i in range(parts)]
+                 timeout=(90 if tier == "quick" else 1500)) for i in range(parts)]
 
 
 def search_batches(seed):
